@@ -1,5 +1,7 @@
 import Driver.Wire
 import Marwood.Vm.RunLoop
+import Driver.VmStep
+import Marwood.Vm.Eval
 /-! Driver commands of the Vm area. -/
 namespace Marwood.Driver.Vm
 open Marwood Marwood.Vm
@@ -27,6 +29,15 @@ def handle (cmd : String) (args : List String) : Option String :=
       if kind != "h" && kind != "f" then none
       else if bs.any (· == 0) then none
       else pure ("ok " ++ " ".intercalate (slices (traceMachine k (kind == "h")) bs 0))
+  | "step", args => VmStep.handleStep args
+  | "errstate", [cap] => do
+      let cap ← cap.toNat?
+      -- an arbitrary mid-evaluation state with that stack capacity, through the error epilogue
+      let s : St Unit := { heap := (), stack := { cells := List.replicate cap (.ptr 1), sp := cap - 1 },
+                           acc := .ptr 2, ep := 3, ipL := 4, ipO := 5, bp := 6 }
+      let s' := onError s
+      let allU := s'.stack.cells.all (· == .undefined)
+      pure s!"ok sp={s'.stack.sp} bp={s'.bp} ep={VmStep.showNatOrMax s'.ep} acc={VmStep.encCell s'.acc} allundef={if allU then 1 else 0} cap={s'.stack.cells.length}"
   | _, _ => none
 
 end Marwood.Driver.Vm
